@@ -84,6 +84,9 @@ func sigOf(s *RunSpec, rec []SwRec) uint64 {
 	}
 	for _, o := range s.Objects {
 		mix(uint64(o.Kind)<<40 ^ o.Seed)
+		for _, tw := range o.Tweaks {
+			mix(tw)
+		}
 	}
 	for _, r := range rec {
 		mix(uint64(r.T)<<40 | uint64(r.To)<<32 | uint64(r.At))
